@@ -15,10 +15,10 @@ import (
 func init() {
 	Register(&Rule{
 		ID: "C33", Section: "5 C33",
-		Technique: "control-dependence and dominance of window tests before flow.take, feasible-path enumeration of processData/sendWindowUpdate32 for refund pairing, value-flow (announced increment = credited increment), who-may-touch census of the receive windows",
+		Technique: "feasible-path enumeration with private helpers spliced in and values resolved along each path (window test before flow.take, refund pairing in processData, noteBodyRead, sendWindowUpdate32, RequestBody.Read), value-flow (announced increment = credited increment), who-may-touch census of the receive windows",
 		Meta: core.Meta{
 			Level:       "other",
-			Explanation: "Decides, on every path of the inspected bfe_http2 functions: (a) every flow.take on a receive window (serverConn.inflow, stream.inflow) takes the frame's FrameHeader.Length (padding included), is control-dependent on `Length <= available()` of the same window (non-strict, tested immediately before, nothing mutating the window in between), the excess branch only returns an error whose Code is ErrCodeFlowControl for the frame's stream id and touches no window, and the body pipe is written only after the take; (b) refund pairing in processData by path enumeration: a connection-level take is refunded by the same amount before every return; after a stream-level take an accepted frame refunds Length-len(data) on both levels whenever that is positive and skips the body write only for empty data; a frame rejected after the take refunds the connection level; (c) noteBodyRead refunds the connection level unconditionally and the stream level with the same n unless the stream state is HalfClosedRemote/Closed; RequestBody.Read reports exactly the n > 0 returned by the pipe, through bodyReadCh, to noteBodyRead; (d) sendWindowUpdate passes the stream through, splits into increments <= 2^31-1 and loses nothing; sendWindowUpdate32 announces in the WINDOW_UPDATE frame the same n it credits with flow.add, on the matching level (st == nil <=> serverConn.inflow), on every path except n == 0; every stream-level refund is dominated by a connection-level refund of the same amount; (e) who may take/credit/alias the receive windows and who may call the refund functions (census); (f) advertised = accounted: the SETTINGS_INITIAL_WINDOW_SIZE value sent, stream.isw, the initial credit of stream.inflow and the body buffer size come from the same source, stream.inflow is linked to serverConn.inflow, the connection window starts at the RFC default; (g) the arithmetic shape of flow.available/take/add; (h) closing a stream refunds at connection level the octets still buffered in its body pipe; (i) refunded once: any refund (connection or stream level, any function of the package) whose amount is what a body pipe reports about itself (its buffered length; results of Pipe methods that move no data) is followed on every path, or preceded, by Pipe.Release or Pipe.BreakWithError of the same pipe, so that the octets refunded in advance can no longer be read and refunded again by noteBodyRead (CloseWithError alone keeps them readable); this rests on Pipe.Release dropping the buffer on every path, Pipe.BreakWithError recording breakErr, and Pipe.Read taking bytes from the buffer only under breakErr == nil && b != nil, which are checked in bfe_util/pipe. Not covered: a handler read that races with closeStream between the length query and the release of the pipe; sums over long histories (the rules are per-path necessary conditions); that the handler eventually reads; the 2^31-1 ceiling of window sizes configured by the operator; DATA discarded after GOAWAY or refused for exceeding Content-Length is not debited at all (no window change, so no stall).",
+			Explanation: "Decides, on every path of the inspected bfe_http2 functions: (a) every flow.take on a receive window (serverConn.inflow, stream.inflow) takes the frame's FrameHeader.Length (padding included), is control-dependent on `Length <= available()` of the same window (non-strict, tested immediately before, nothing mutating the window in between), the excess branch only returns an error whose Code is ErrCodeFlowControl for the frame's stream id and touches no window, and the body pipe is written only after the take; (b) refund pairing in processData by path enumeration: a connection-level take is refunded by the same amount before every return; after a stream-level take an accepted frame refunds Length-len(data) on both levels whenever that is positive and skips the body write only for empty data; a frame rejected after the take refunds the connection level; (c) noteBodyRead refunds the connection level unconditionally and the stream level with the same n unless the stream state is HalfClosedRemote/Closed; RequestBody.Read reports exactly the n > 0 returned by the pipe, through bodyReadCh, to noteBodyRead; (d) sendWindowUpdate passes the stream through, splits into increments <= 2^31-1 and loses nothing; sendWindowUpdate32 announces in the WINDOW_UPDATE frame the same n it credits with flow.add, on the matching level (st == nil <=> serverConn.inflow), on every path except n == 0; every stream-level refund is dominated by a connection-level refund of the same amount; (e) who may take/credit/alias the receive windows and who may call the refund functions (census); (f) advertised = accounted: the SETTINGS_INITIAL_WINDOW_SIZE value sent, stream.isw, the initial credit of stream.inflow and the body buffer size come from the same source, stream.inflow is linked to serverConn.inflow, the connection window starts at the RFC default; (g) the arithmetic shape of flow.available/take/add; (h) closing a stream refunds at connection level the octets still buffered in its body pipe; (i) refunded once: any refund (connection or stream level, any function of the package) whose amount is what a body pipe reports about itself (its buffered length; results of Pipe methods that move no data) is followed on every path, or preceded, by Pipe.Release or Pipe.BreakWithError of the same pipe, so that the octets refunded in advance can no longer be read and refunded again by noteBodyRead (CloseWithError alone keeps them readable); this rests on Pipe.Release dropping the buffer on every path, Pipe.BreakWithError recording breakErr, and Pipe.Read taking bytes from the buffer only under breakErr == nil && b != nil, which are checked in bfe_util/pipe. How: processData, noteBodyRead, sendWindowUpdate32, RequestBody.Read and defaultStreamWindow are judged over their feasible paths with their private helpers (unexported, only called from inside the function's region) spliced in at the call sites, values resolved along each path (parameter -> argument, phi -> edge taken, result -> value returned) and compared by structure, branch conditions unfolded through negations and named booleans; so extracting or inlining a helper, early returns, if-chains vs switch, De Morgan spellings, renamed locals, added logging or defensive panics do not change the verdict. Census rules attribute a site in a function that is not in the reviewed snapshot of bfe_http2 (a new unexported helper with static calls only, not started as a goroutine) to the reviewed functions that call it. Not covered by this technique: statements inside loops or anonymous functions of these functions (a window operation there lies on no enumerated path and is reported, not passed); helpers shared by several reviewed functions are not spliced; more than 4 levels of helpers. Not covered: a handler read that races with closeStream between the length query and the release of the pipe; sums over long histories (the rules are per-path necessary conditions); that the handler eventually reads; the 2^31-1 ceiling of window sizes configured by the operator; DATA discarded after GOAWAY or refused for exceeding Content-Length is not debited at all (no window change, so no stall).",
 			RuleText:    "obligations = each receive-window take (amount, guard, freshness, excess branch), each (take kind, exit) class of processData paths, each refund call of noteBodyRead, each sendWindowUpdate32 call of sendWindowUpdate, each path class of sendWindowUpdate32, each stream-level refund in the package, each site touching a receive window, each caller of the refund functions, each initial-window source, the flow methods, closeStream, each refund computed from a body pipe's state, the disabling methods of pipe.Pipe",
 			Assumptions: []string{"flow values are reached only through the four fields serverConn.inflow/flow and stream.inflow/flow (any other access path is itself reported)", "pipe.Pipe.Write either stores all of data or returns an error (checked at run time by processData's `wrote != len(data)` panic)"},
 		},
@@ -50,6 +50,15 @@ func init() {
 			{Name: "silent-close-refund-then-break", Silent: true, File: "bfe_http2/server.go", Old: "	if p := st.body; p != nil {\n		p.CloseWithError(err)\n", New: "	if p := st.body; p != nil {\n		sc.sendWindowUpdate(nil, len(p.Done()))\n		p.BreakWithError(err)\n		p.CloseWithError(err)\n"},
 			{Name: "silent-rename-and-log", Silent: true, File: "bfe_http2/server.go", Old: "		st.inflow.take(int32(f.Length))\n\n		if len(data) > 0 {", New: "		frameLen := int32(f.Length)\n		st.inflow.take(frameLen)\n		log.Logger.Debug(\"http2: took %d\", frameLen)\n\n		if len(data) > 0 {"},
 			{Name: "silent-reorder-zero-and-negative-tests", Silent: true, File: "bfe_http2/server.go", Old: "	if n == 0 {\n		return\n	}\n	if n < 0 {\n		panic(\"negative update\")\n	}", New: "	if n < 0 {\n		panic(\"negative update\")\n	}\n	if n == 0 {\n		return\n	}"},
+			// helper extraction (modelled on C33-N1, other site): the padding refund pair moves into a new private method
+			{Name: "silent-extract-padding-refund", Silent: true, File: "bfe_http2/server.go", Old: "			sc.sendWindowUpdate(nil, pad) // conn-level\n			sc.sendWindowUpdate(st, pad)  // stream-level\n		}\n	}\n	if f.StreamEnded() {\n		st.endStream()\n	}\n	return nil\n}\n", New: "			sc.refundPadding(st, pad)\n		}\n	}\n	if f.StreamEnded() {\n		st.endStream()\n	}\n	return nil\n}\n\nfunc (sc *serverConn) refundPadding(strm *stream, octets int) {\n	sc.sendWindowUpdate(nil, octets) // conn-level\n	sc.sendWindowUpdate(strm, octets) // stream-level\n}\n"},
+			// helper extraction of a guarded take: window test, debit and FLOW_CONTROL_ERROR of the stream level move into a helper that returns the error
+			{Name: "silent-extract-stream-debit", Silent: true, File: "bfe_http2/server.go", Old: "\t\tif st.inflow.available() < int32(f.Length) {\n\t\t\terrMsg := fmt.Sprintf(\"sender tried to send more than stream available window size %d\", st.inflow.available())\n\t\t\treturn StreamError{id, ErrCodeFlowControl, errMsg}\n\t\t}\n\t\tst.inflow.take(int32(f.Length))\n\n\t\tif len(data) > 0 {\n\t\t\twrote, err := st.body.Write(data)\n\t\t\tif err != nil {\n\t\t\t\t// The handler has closed the request body: return the conn-level\n\t\t\t\t// flow control of the discarded frame (the stream is reset below).\n\t\t\t\tsc.sendWindowUpdate(nil, int(f.Length)-wrote)\n\t\t\t\terrMsg := fmt.Sprintf(\"stream body write error: %s\", err)\n\t\t\t\treturn StreamError{id, ErrCodeStreamClosed, errMsg}\n\t\t\t}\n\t\t\tif wrote != len(data) {\n\t\t\t\tpanic(\"internal error: bad Writer\")\n\t\t\t}\n\t\t\tst.bodyBytes += int64(len(data))\n\t\t}\n\n\t\t// Return any padded flow control now, since we won't\n\t\t// refund it later on body reads.\n\t\tif pad := int(f.Length) - int(len(data)); pad > 0 {\n\t\t\tsc.sendWindowUpdate(nil, pad) // conn-level\n\t\t\tsc.sendWindowUpdate(st, pad)  // stream-level\n\t\t}\n\t}\n\tif f.StreamEnded() {\n\t\tst.endStream()\n\t}\n\treturn nil\n}\n\n", New: "\t\tif err := debitStreamWindow(st, f); err != nil {\n\t\t\treturn err\n\t\t}\n\n\t\tif len(data) > 0 {\n\t\t\twrote, err := st.body.Write(data)\n\t\t\tif err != nil {\n\t\t\t\t// The handler has closed the request body: return the conn-level\n\t\t\t\t// flow control of the discarded frame (the stream is reset below).\n\t\t\t\tsc.sendWindowUpdate(nil, int(f.Length)-wrote)\n\t\t\t\terrMsg := fmt.Sprintf(\"stream body write error: %s\", err)\n\t\t\t\treturn StreamError{id, ErrCodeStreamClosed, errMsg}\n\t\t\t}\n\t\t\tif wrote != len(data) {\n\t\t\t\tpanic(\"internal error: bad Writer\")\n\t\t\t}\n\t\t\tst.bodyBytes += int64(len(data))\n\t\t}\n\n\t\t// Return any padded flow control now, since we won't\n\t\t// refund it later on body reads.\n\t\tif pad := int(f.Length) - int(len(data)); pad > 0 {\n\t\t\tsc.sendWindowUpdate(nil, pad) // conn-level\n\t\t\tsc.sendWindowUpdate(st, pad)  // stream-level\n\t\t}\n\t}\n\tif f.StreamEnded() {\n\t\tst.endStream()\n\t}\n\treturn nil\n}\n\n// debitStreamWindow charges a DATA frame to its stream's receive window.\nfunc debitStreamWindow(strm *stream, frame *DataFrame) error {\n\tif strm.inflow.available() < int32(frame.Length) {\n\t\terrMsg := fmt.Sprintf(\"sender tried to send more than stream available window size %d\", strm.inflow.available())\n\t\treturn StreamError{frame.Header().StreamID, ErrCodeFlowControl, errMsg}\n\t}\n\tstrm.inflow.take(int32(frame.Length))\n\treturn nil\n}\n\n"},
+			// named boolean + De Morgan (modelled on C33-N4, other sites)
+			{Name: "silent-demorgan-default-window", Silent: true, File: "bfe_http2/server.go", Old: "	if st.isw == 0 || st.isw == initialWindowSize {\n		return true\n	}\n	return false\n", New: "	custom := st.isw != 0 && st.isw != initialWindowSize\n	return !custom\n"},
+			{Name: "silent-named-level-test", Silent: true, File: "bfe_http2/server.go", Old: "	if st == nil {\n		ok = sc.inflow.add(n)\n	} else {\n		ok = st.inflow.add(n)\n	}", New: "	streamLevel := !(st == nil)\n	if streamLevel {\n		ok = st.inflow.add(n)\n	} else {\n		ok = sc.inflow.add(n)\n	}"},
+			// early return instead of nesting (modelled on C33-N2, other site)
+			{Name: "silent-bodyread-early-return", Silent: true, File: "bfe_http2/server.go", Old: "	if st.state != stateHalfClosedRemote && st.state != stateClosed {\n		// Don't send this WINDOW_UPDATE", New: "	switch st.state {\n	case stateHalfClosedRemote, stateClosed:\n		return\n	}\n	{\n		// Don't send this WINDOW_UPDATE"},
 		},
 	})
 }
@@ -111,22 +120,6 @@ func h2aPosTest(cond ssa.Value) (v ssa.Value, sense bool, ok bool) {
 	return nil, false, false
 }
 
-func h2aPathSig(p *core.Path) string {
-	var parts []string
-	seen := map[string]bool{}
-	p.Edges(func(cond ssa.Value, taken bool) {
-		s := core.Render(cond)
-		if !taken {
-			s = "!" + s
-		}
-		if !seen[s] {
-			seen[s] = true
-			parts = append(parts, s)
-		}
-	})
-	return strings.Join(parts, " & ")
-}
-
 // h2aRefund is a call of serverConn.sendWindowUpdate / sendWindowUpdate32.
 type h2aRefund struct {
 	call   ssa.CallInstruction
@@ -179,8 +172,14 @@ func runC33(c *core.Ctx) {
 	c33WindowInit(c, fl)
 	c33CloseRefund(c)
 	c33RefundOnce(c)
+	h2aDropCache(c)
 }
 
+// c33ProcessData judges processData together with its private helpers: the
+// rules are stated over the feasible paths of the function with the helpers
+// spliced in (h2aPathsOf) and over values resolved along each path, so that
+// neither the block structure (nested if / early return / switch / named
+// booleans) nor the place of a statement (inline / extracted) matters.
 func c33ProcessData(c *core.Ctx, fl *h2aFlows) {
 	pd := h2aFn(c, "serverConn.processData")
 	lengthFld := h2aField(c, "FrameHeader.Length")
@@ -190,130 +189,227 @@ func c33ProcessData(c *core.Ctx, fl *h2aFlows) {
 	if pd == nil || lengthFld == nil || sidFld == nil || streamsFld == nil || !okCode || len(pd.Params) != 2 {
 		return
 	}
-	frame := pd.Params[1]
+	const frameIdx = 1 // the *DataFrame parameter
 	names := h2aErrCodeNames(c)
-	isMutator := h2aIsCall("flow.take", "flow.add", "serverConn.sendWindowUpdate", "serverConn.sendWindowUpdate32")
-	isBodyWrite := h2aIsCall("bfe_util/pipe.Pipe.Write")
+	changesWindow := core.LiftMay(h2aIsCall("flow.take", "flow.add", "serverConn.sendWindowUpdate", "serverConn.sendWindowUpdate32"), 2)
+	isMutator := func(e h2aEv) bool { return !e.spliced && changesWindow(e.in) }
+	isBodyWriteIn := h2aIsCall("bfe_util/pipe.Pipe.Write")
+	isBodyWrite := func(e h2aEv) bool { return isBodyWriteIn(e.in) }
+	thruHeader := func(cc *ssa.CallCommon) bool { return core.CallIs(cc, h2aPkg+".FrameHeader.Header") }
 
+	// static sites of the region
 	type takeSite struct {
-		in     ssa.Instruction
-		kind   string
-		base   ssa.Value
-		amount ssa.Value
+		in   ssa.Instruction
+		kind string
+		key  string
+		// aggregated over the paths through the site
+		reached                    bool
+		amountOK, guardOK, freshOK bool
+		strictOnly                 bool
+		amountS, guardS            string
+		goodOp                     map[ssa.Value]token.Token // window test -> comparison established on the way to the take
+		exits                      int
+		excessOK                   bool
+		excessWhy                  string
+		excessPos                  token.Pos
 	}
-	var takes []takeSite
-	core.Instrs(pd, func(in ssa.Instruction) {
+	var takes []*takeSite
+	siteOf := map[ssa.Instruction]*takeSite{}
+	type writeSite struct {
+		in      ssa.Instruction
+		key     string
+		reached bool
+		ok      bool
+	}
+	var writes []*writeSite
+	writeOf := map[ssa.Instruction]*writeSite{}
+	var refundSites []ssa.Instruction
+	ord, ordW := h2aOrd{}, h2aOrd{}
+	h2aRegionInstrs(c, pd, func(g *ssa.Function, in ssa.Instruction) {
 		if cc := h2aCallOf(in, "flow.take"); cc != nil && len(cc.Args) == 2 {
-			if k, base := fl.kind(cc.Args[0]); k == "conn-in" || k == "stream-in" {
-				takes = append(takes, takeSite{in, k, base, cc.Args[1]})
+			if k, _ := fl.kind(cc.Args[0]); k == "conn-in" || k == "stream-in" {
+				t := &takeSite{in: in, kind: k, key: ord.key("processData:" + k), amountOK: true, guardOK: true, freshOK: true, excessOK: true, goodOp: map[ssa.Value]token.Token{}}
+				takes = append(takes, t)
+				siteOf[in] = t
 			}
+		}
+		if isBodyWriteIn(in) {
+			w := &writeSite{in: in, key: ordW.key("processData:body-write"), ok: true}
+			writes = append(writes, w)
+			writeOf[in] = w
+		}
+		if _, ok := h2aRefundOf(in); ok {
+			refundSites = append(refundSites, in)
 		}
 	})
-	ord := h2aOrd{}
-	for _, t := range takes {
-		key := ord.key("processData:" + t.kind)
-		cc := t.in.(ssa.CallInstruction).Common()
-		// amount = the frame's Length (payload + padding)
-		base, isLen := h2aFieldLoad(t.amount, lengthFld)
-		c.Check("take-amount", key, t.in.Pos(), isLen && h2aRoot(base) == ssa.Value(frame),
-			"the "+t.kind+" window is debited by "+core.Render(t.amount)+"; flow control counts the whole DATA frame payload, padding included (FrameHeader.Length of the frame)")
-		// guard: amount <= available(same window), non-strict
-		var guard *core.Guard
-		var avail *ssa.Call
-		strictOnly := false
-		for _, g := range core.GuardsAt(t.in.Block()) {
-			g := g
-			r, isRel := h2aRelOf(g)
-			if !isRel || !h2aSame(r.lo, t.amount) {
+
+	paths, complete := h2aPathsOf(c, pd, 50000)
+	isFrameLength := func(p *h2aIPath, v h2aCV) bool {
+		base, isLen := p.fieldLoad(v, lengthFld)
+		return isLen && p.isRootParam(p.rootOf(base, nil), frameIdx)
+	}
+	isPad := func(p *h2aIPath, v, amount h2aCV) (h2aCV, bool) {
+		v = p.strip(v)
+		b, isBin := v.v.(*ssa.BinOp)
+		if !isBin || b.Op != token.SUB || !p.same(h2aCV{b.X, v.fr}, amount) {
+			return h2aCV{}, false
+		}
+		return p.lenOf(h2aCV{b.Y, v.fr})
+	}
+
+	// (a) every take: amount, window test, freshness
+	for _, p := range paths {
+		for i, e := range p.evs {
+			t := siteOf[e.in]
+			if t == nil {
 				continue
 			}
-			call, isCall := core.StripConv(r.hi).(*ssa.Call)
-			if !isCall || !core.CallIs(&call.Call, h2aPkg+".flow.available") || !h2aSame(call.Call.Args[0], cc.Args[0]) {
+			t.reached = true
+			cc := e.in.(ssa.CallInstruction).Common()
+			recv, amount := h2aCV{cc.Args[0], e.fr}, h2aCV{cc.Args[1], e.fr}
+			if !isFrameLength(p, amount) && t.amountOK {
+				t.amountOK, t.amountS = false, core.Render(p.strip(amount).v)
+			}
+			var guard *h2aOrder
+			availAt := -1
+			strict := false
+			for _, o := range p.orders(i) {
+				o := o
+				if !p.same(o.lo, amount) {
+					continue
+				}
+				call, cfr := p.callOf(o.hi, "flow.available")
+				if call == nil || !p.same(h2aCV{call.Call.Args[0], cfr}, recv) {
+					continue
+				}
+				if o.strict {
+					strict = true
+					continue
+				}
+				guard, availAt = &o, p.evIndex(call, cfr)
+			}
+			if guard == nil {
+				if t.guardOK {
+					t.guardOK, t.strictOnly = false, strict
+					var gs []string
+					for _, cm := range p.cmps(i) {
+						gs = append(gs, "("+core.Render(cm.x.v)+" "+cm.op.String()+" "+core.Render(cm.y.v)+")")
+					}
+					t.guardS = strings.Join(gs, " && ")
+				}
 				continue
 			}
-			if r.strict {
-				strictOnly = true
-				continue
-			}
-			guard, avail = &g, call
-		}
-		detail := "flow.take on the " + t.kind + " window is not control-dependent on `" + core.Render(t.amount) + " <= available()` of the same window; guards here: " + strings.Join(core.GuardStrs(t.in.Block()), " && ")
-		if guard == nil && strictOnly {
-			detail = "the window test before flow.take on the " + t.kind + " window is strict (rejects a frame that exactly fills the advertised window); required: accept when Length <= available()"
-		}
-		c.Check("take-guard", key, t.in.Pos(), guard != nil, detail)
-		if guard == nil {
-			continue
-		}
-		// nothing changes the window between the test and the take
-		stale := core.ReachAvoiding(pd, avail, func(x ssa.Instruction) bool { return x == t.in }, func(x ssa.Instruction) bool { return x != t.in && isMutator(x) })
-		c.Check("take-guard-fresh", key, t.in.Pos(), stale == nil, "between the available() test and flow.take the window can be changed by another take/add/sendWindowUpdate: the test is stale")
-		// excess branch
-		var ifb *ssa.BasicBlock
-		for _, b := range pd.Blocks {
-			if ifi, ok := b.Instrs[len(b.Instrs)-1].(*ssa.If); ok && ifi.Cond == guard.Cond && b.Dominates(t.in.Block()) {
-				ifb = b
-			}
-		}
-		if ifb == nil {
-			c.Check("excess-error", key, t.in.Pos(), false, "cannot locate the branch of the window test")
-			continue
-		}
-		ex := ifb.Succs[0]
-		if guard.Pol {
-			ex = ifb.Succs[1]
-		}
-		region := h2aRegion(ex)
-		okEx, why := !region[t.in.Block()], ""
-		if !okEx {
-			why = "the excess branch falls through to the take"
-		}
-		exits := 0
-		for b := range region {
-			for _, in := range b.Instrs {
-				if isMutator(in) || isBodyWrite(in) {
-					okEx, why = false, "the excess branch changes a window or delivers data ("+core.Render(in.(ssa.Value))+")"
+			// the comparison instruction and the outcome that leads to the take
+			for _, cm := range p.cmps(i) {
+				if cm.cond == guard.cond && cm.at == guard.at {
+					t.goodOp[cm.cond] = cm.op
 				}
 			}
-			switch x := b.Instrs[len(b.Instrs)-1].(type) {
-			case *ssa.Panic:
-				okEx, why = false, "the excess branch panics"
-			case *ssa.Return:
-				exits++
-				rv := core.RetVals(x)
-				e, isErr := h2aErrOf(rv[len(rv)-1])
+			// nothing changes the window between the test and the take
+			if availAt < 0 {
+				t.freshOK = false
+			}
+			for j := availAt + 1; j >= 1 && j < i; j++ {
+				if isMutator(p.evs[j]) {
+					t.freshOK = false
+				}
+			}
+		}
+	}
+	// the excess outcome of each window test
+	for _, p := range paths {
+		for _, cm := range p.cmps(-1) {
+			for _, t := range takes {
+				good, isTest := t.goodOp[cm.cond]
+				if !isTest || cm.op != h2aNeg[good] {
+					continue
+				}
+				fail := func(why string) {
+					if t.excessOK {
+						t.excessOK, t.excessWhy, t.excessPos = false, why, p.evs[cm.at].in.Pos()
+					}
+				}
+				if t.excessPos == token.NoPos && cm.at+1 < len(p.evs) {
+					t.excessPos = p.evs[cm.at+1].in.Pos()
+				}
+				for j := cm.at + 1; j < len(p.evs); j++ {
+					if isMutator(p.evs[j]) || isBodyWrite(p.evs[j]) {
+						what := "?"
+						if v, isV := p.evs[j].in.(ssa.Value); isV {
+							what = core.Render(v)
+						}
+						fail("the excess branch changes a window or delivers data (" + what + ")")
+					}
+				}
+				if !p.Returned() {
+					fail("the excess branch panics")
+					continue
+				}
+				t.exits++
+				rv := p.RootResults()
+				if len(rv) == 0 {
+					fail("the excess branch returns no error")
+					continue
+				}
+				e, sid, isErr := p.errOf(rv[len(rv)-1])
 				switch {
 				case !isErr || !e.hasCode || e.code != flowCode:
-					okEx, why = false, "the excess branch returns "+h2aExitSig(x, names)+", required an error with Code ErrCodeFlowControl"
+					fail("the excess branch returns " + p.exitSig(names) + ", required an error with Code ErrCodeFlowControl")
 				case e.streamID != nil:
-					if _, isSid := h2aFieldLoad(e.streamID, sidFld); !isSid || !strings.HasPrefix(core.Render(e.streamID), frame.Name()+".") && !strings.Contains(core.Render(e.streamID), "("+frame.Name()+".") {
-						okEx, why = false, "the FLOW_CONTROL_ERROR is raised for stream "+core.Render(e.streamID)+", not for the frame's StreamID"
+					base, isSid := p.fieldLoad(sid, sidFld)
+					if !isSid || !p.isRootParam(p.rootOf(base, thruHeader), frameIdx) {
+						fail("the FLOW_CONTROL_ERROR is raised for stream " + core.Render(sid.v) + ", not for the frame's StreamID")
 					}
 				}
 			}
 		}
-		if exits == 0 && okEx {
-			okEx, why = false, "the excess branch never returns"
+	}
+	for _, t := range takes {
+		if !t.reached {
+			c.Check("take-guard", t.key, t.in.Pos(), false, "flow.take on the "+t.kind+" window lies on no enumerated path of processData (inside a loop or an anonymous function): the rule cannot relate it to a window test")
+			continue
 		}
-		c.Check("excess-error", key, ex.Instrs[0].Pos(), okEx, "window exceeded on the "+t.kind+" window: "+why)
+		c.Check("take-amount", t.key, t.in.Pos(), t.amountOK,
+			"the "+t.kind+" window is debited by "+t.amountS+"; flow control counts the whole DATA frame payload, padding included (FrameHeader.Length of the frame)")
+		detail := "flow.take on the " + t.kind + " window is not preceded on every path by the test `amount <= available()` of the same window; comparisons established on the offending path: " + t.guardS
+		if !t.guardOK && t.strictOnly {
+			detail = "the window test before flow.take on the " + t.kind + " window is strict (rejects a frame that exactly fills the advertised window); required: accept when Length <= available()"
+		}
+		c.Check("take-guard", t.key, t.in.Pos(), t.guardOK, detail)
+		if !t.guardOK {
+			continue
+		}
+		c.Check("take-guard-fresh", t.key, t.in.Pos(), t.freshOK, "between the available() test and flow.take the window can be changed by another take/add/sendWindowUpdate: the test is stale")
+		if t.exits == 0 && t.excessOK {
+			t.excessOK, t.excessWhy = false, "the excess branch never returns"
+		}
+		pos := t.excessPos
+		if pos == token.NoPos {
+			pos = t.in.Pos()
+		}
+		c.Check("excess-error", t.key, pos, t.excessOK, "window exceeded on the "+t.kind+" window: "+t.excessWhy)
 	}
 	c.Min("take-amount", 2)
 	c.Min("take-guard", 2)
 	c.Min("excess-error", 2)
 	// data is delivered only after it has been debited from the stream window
-	ordW := h2aOrd{}
-	core.Instrs(pd, func(in ssa.Instruction) {
-		if !isBodyWrite(in) {
-			return
-		}
-		ok := false
-		for _, t := range takes {
-			if t.kind == "stream-in" && core.Dominates(t.in, in) {
-				ok = true
+	for _, p := range paths {
+		took := false
+		for _, e := range p.evs {
+			if t := siteOf[e.in]; t != nil && t.kind == "stream-in" {
+				took = true
+			}
+			if w := writeOf[e.in]; w != nil {
+				w.reached = true
+				if !took {
+					w.ok = false
+				}
 			}
 		}
-		c.Check("accept-after-take", ordW.key("processData:body-write"), in.Pos(), ok, "DATA is written to the request body pipe on a path that has not debited the stream's receive window first (the window test would then come after the data was accepted)")
-	})
+	}
+	for _, w := range writes {
+		c.Check("accept-after-take", w.key, w.in.Pos(), w.reached && w.ok, "DATA is written to the request body pipe on a path that has not debited the stream's receive window first (the window test would then come after the data was accepted)")
+	}
 	c.Min("accept-after-take", 1)
 
 	// (b) refund pairing by path enumeration
@@ -335,80 +431,78 @@ func c33ProcessData(c *core.Ctx, fl *h2aFlows) {
 			a.ok, a.detail, a.pos = false, detail, pos
 		}
 	}
-	isPad := func(v ssa.Value, amount ssa.Value) (data ssa.Value, ok bool) {
-		b, isBin := core.StripConv(v).(*ssa.BinOp)
-		if !isBin || b.Op != token.SUB || !h2aSame(b.X, amount) {
-			return nil, false
-		}
-		return h2aLenOf(b.Y)
+	type refundEv struct {
+		in       ssa.Instruction
+		conn     bool
+		st, amnt h2aCV
 	}
-	npaths := 0
-	complete := core.EnumPaths(pd, 1, 50000, func(p *core.Path) {
-		npaths++
-		last := p.Last()
-		if _, isPanic := last.(*ssa.Panic); isPanic {
-			return
+	padOK := map[ssa.Instruction]bool{} // refund site computing Length-len(x): x is the frame's Data()
+	padWhat := map[ssa.Instruction]string{}
+	for _, p := range paths {
+		p := p
+		if !p.Returned() {
+			continue
 		}
-		exit := h2aExitSig(last, names)
-		// events in order
+		exit := p.exitSig(names)
+		sig := h2aFactSig(p)
 		var cur *takeSite
-		var refunds []h2aRefund
+		var curAmount, curBase h2aCV
+		var refunds []refundEv
 		wrote := false
-		var wroteData ssa.Value
+		var wroteData h2aCV
 		flush := func() {
 			if cur == nil {
 				return
 			}
 			key := "processData:" + cur.kind + "-take->" + exit
-			sig := h2aPathSig(p)
-			nConn := func(match func(ssa.Value) bool) int {
+			nConn := func(match func(h2aCV) bool) int {
 				n := 0
 				for _, r := range refunds {
-					if r.conn && match(r.amount) {
+					if r.conn && match(r.amnt) {
 						n++
 					}
 				}
 				return n
 			}
-			nStream := func(match func(ssa.Value) bool) int {
+			nStream := func(match func(h2aCV) bool) int {
 				n := 0
 				for _, r := range refunds {
-					if !r.conn && h2aSame(r.st, cur.base) && match(r.amount) {
+					if !r.conn && p.same(r.st, curBase) && match(r.amnt) {
 						n++
 					}
 				}
 				return n
 			}
-			full := func(v ssa.Value) bool { return h2aSame(v, cur.amount) }
+			full := func(v h2aCV) bool { return p.same(v, curAmount) }
 			switch {
 			case cur.kind == "conn-in":
 				note(key, cur.in.Pos(), nConn(full) == 1, fmt.Sprintf("after debiting the connection window for a frame that is not delivered to a stream, a path returns with %d calls of sendWindowUpdate(nil, <same amount>) instead of exactly one: the octets are never given back (or given back twice); path: %s", nConn(full), sig))
 			case exit == "return-nil":
 				// accepted frame: refund of Length - len(data)
 				pos, neg := false, false
-				var padV ssa.Value
+				var padV h2aCV
 				emptyData := false
-				p.Edges(func(cond ssa.Value, taken bool) {
-					v, sense, ok := h2aPosTest(cond)
+				for _, cm := range p.cmps(-1) {
+					v, sense, ok := p.posTest(cm)
 					if !ok {
-						return
+						continue
 					}
-					if _, isP := isPad(v, cur.amount); isP {
-						if taken == sense {
+					if _, isP := isPad(p, v, curAmount); isP {
+						if sense {
 							pos, padV = true, v
 						} else {
 							neg = true
 						}
 					}
-					if _, isLen := h2aLenOf(v); isLen && taken != sense {
+					if _, isLen := p.lenOf(v); isLen && !sense {
 						emptyData = true
 					}
-				})
-				padMatch := func(v ssa.Value) bool {
-					if padV != nil {
-						return h2aSame(v, padV)
+				}
+				padMatch := func(v h2aCV) bool {
+					if padV.v != nil {
+						return p.same(v, padV)
 					}
-					_, ok := isPad(v, cur.amount)
+					_, ok := isPad(p, v, curAmount)
 					return ok
 				}
 				switch {
@@ -420,14 +514,14 @@ func c33ProcessData(c *core.Ctx, fl *h2aFlows) {
 					note(key, cur.in.Pos(), nConn(padMatch) == 1, fmt.Sprintf("%s but refunds Length-len(data) %d times on the connection level (exactly once required); path: %s", what, nConn(padMatch), sig))
 					note(key, cur.in.Pos(), nStream(padMatch) == 1, fmt.Sprintf("%s but refunds Length-len(data) %d times on the stream level (exactly once required); path: %s", what, nStream(padMatch), sig))
 				default:
-					anyPad := func(v ssa.Value) bool { _, ok := isPad(v, cur.amount); return ok }
+					anyPad := func(v h2aCV) bool { _, ok := isPad(p, v, curAmount); return ok }
 					note(key, cur.in.Pos(), nConn(anyPad) == 0 && nStream(anyPad) == 0, "the path established padding <= 0 and still refunds Length-len(data); path: "+sig)
 				}
 				if wrote {
 					// the refunded padding is computed against the data actually written
 					okD := true
 					for _, r := range refunds {
-						if d, isP := isPad(r.amount, cur.amount); isP && !h2aSame(d, wroteData) {
+						if d, isP := isPad(p, r.amnt, curAmount); isP && !p.same(d, wroteData) {
 							okD = false
 						}
 					}
@@ -437,54 +531,67 @@ func c33ProcessData(c *core.Ctx, fl *h2aFlows) {
 				}
 			default:
 				// frame rejected after the debit: the stream is reset, its connection-level share must come back
-				partial := func(v ssa.Value) bool {
+				partial := func(v h2aCV) bool {
 					if full(v) {
 						return true
 					}
-					b, isBin := core.StripConv(v).(*ssa.BinOp)
-					return isBin && b.Op == token.SUB && h2aSame(b.X, cur.amount)
+					v = p.strip(v)
+					b, isBin := v.v.(*ssa.BinOp)
+					return isBin && b.Op == token.SUB && p.same(h2aCV{b.X, v.fr}, curAmount)
 				}
 				note(key, cur.in.Pos(), nConn(partial) == 1, "after debiting stream and connection windows by Length the frame is rejected ("+exit+") without sendWindowUpdate(nil, Length[-wrote]): the connection window shrinks for good although no handler will ever read these octets; path: "+sig)
 			}
-		}
-		anyTake, routed := false, false
-		p.Instrs(func(in ssa.Instruction) bool {
-			for i := range takes {
-				if takes[i].in == in {
-					flush()
-					cur, refunds, wrote = &takes[i], nil, false
-					anyTake = true
+			// the pad computation uses the frame's own data
+			for _, r := range refunds {
+				if d, isP := isPad(p, r.amnt, curAmount); isP {
+					call, cfr := p.callOf(d, "DataFrame.Data")
+					okD := call != nil && p.isRootParam(h2aCV{call.Call.Args[0], cfr}, frameIdx)
+					if prev, seen := padOK[r.in]; !seen || (prev && !okD) {
+						padOK[r.in], padWhat[r.in] = okD, core.Render(d.v)
+					}
 				}
 			}
-			if lk, ok := in.(*ssa.Lookup); ok {
-				if _, isStreams := h2aFieldLoad(lk.X, streamsFld); isStreams {
+		}
+		anyTake, routed := false, false
+		for _, e := range p.evs {
+			if t := siteOf[e.in]; t != nil {
+				flush()
+				cc := e.in.(ssa.CallInstruction).Common()
+				cur, refunds, wrote = t, nil, false
+				curAmount = p.strip(h2aCV{cc.Args[1], e.fr})
+				curBase = h2aCV{}
+				rcv := p.strip(h2aCV{cc.Args[0], e.fr})
+				if fa, isFA := rcv.v.(*ssa.FieldAddr); isFA {
+					curBase = p.strip(h2aCV{fa.X, rcv.fr})
+				}
+				anyTake = true
+			}
+			if lk, ok := e.in.(*ssa.Lookup); ok {
+				if _, isStreams := p.fieldLoad(h2aCV{lk.X, e.fr}, streamsFld); isStreams {
 					routed = true
 				}
 			}
-			if r, ok := h2aRefundOf(in); ok {
-				refunds = append(refunds, r)
+			if r, ok := h2aRefundOf(e.in); ok {
+				refunds = append(refunds, refundEv{e.in, p.isNil(h2aCV{r.st, e.fr}), p.strip(h2aCV{r.st, e.fr}), p.strip(h2aCV{r.amount, e.fr})})
 			}
-			if cc := h2aCallOf(in, "bfe_util/pipe.Pipe.Write"); cc != nil && len(cc.Args) == 2 {
-				wrote, wroteData = true, cc.Args[1]
+			if cc := h2aCallOf(e.in, "bfe_util/pipe.Pipe.Write"); cc != nil && len(cc.Args) == 2 {
+				wrote, wroteData = true, p.strip(h2aCV{cc.Args[1], e.fr})
 			}
-			return true
-		})
+		}
 		flush()
 		if !anyTake && routed && exit == "return-nil" {
 			// a frame that was routed to a stream and accepted without any debit must be empty
 			empty := false
-			p.Edges(func(cond ssa.Value, taken bool) {
-				if v, sense, ok := h2aPosTest(cond); ok && taken != sense {
-					if b, isLen := h2aFieldLoad(v, lengthFld); isLen && h2aRoot(b) == ssa.Value(frame) {
-						empty = true
-					}
+			for _, cm := range p.cmps(-1) {
+				if v, sense, ok := p.posTest(cm); ok && !sense && isFrameLength(p, v) {
+					empty = true
 				}
-			})
-			note("processData:no-take->return-nil", pd.Pos(), empty, "a DATA frame is accepted for a stream without debiting any window although the path did not establish Length == 0; path: "+h2aPathSig(p))
+			}
+			note("processData:no-take->return-nil", pd.Pos(), empty, "a DATA frame is accepted for a stream without debiting any window although the path did not establish Length == 0; path: "+sig)
 		}
-	})
-	c.Check("refund-path", "processData:paths-enumerated", pd.Pos(), complete && npaths > 0, fmt.Sprintf("path enumeration of processData incomplete (%d paths)", npaths))
-	c.Note("processData: %d paths enumerated", npaths)
+	}
+	c.Check("refund-path", "processData:paths-enumerated", pd.Pos(), complete && len(paths) > 0, fmt.Sprintf("path enumeration of processData incomplete (%d paths)", len(paths)))
+	c.Note("processData: %d paths enumerated", len(paths))
 	var keys []string
 	for k := range res {
 		keys = append(keys, k)
@@ -494,24 +601,38 @@ func c33ProcessData(c *core.Ctx, fl *h2aFlows) {
 		c.Check("refund-path", k, res[k].pos, res[k].ok, res[k].detail)
 	}
 	c.Min("refund-path", 5)
-	// the pad computation uses the frame's own data
-	core.Instrs(pd, func(in ssa.Instruction) {
-		r, ok := h2aRefundOf(in)
-		if !ok {
-			return
+	for _, in := range refundSites {
+		if okD, seen := padOK[in]; seen {
+			c.Check("pad-definition", ord.key("processData:pad"), in.Pos(), okD, "the padding refund subtracts len("+padWhat[in]+"), expected len(f.Data()) of the frame being processed")
 		}
-		for _, t := range takes {
-			if d, isP := isPad(r.amount, t.amount); isP {
-				call, isCall := core.StripConv(d).(*ssa.Call)
-				okD := isCall && core.CallIs(&call.Call, h2aPkg+".DataFrame.Data") && call.Call.Args[0] == ssa.Value(frame)
-				c.Check("pad-definition", ord.key("processData:pad"), in.Pos(), okD, "the padding refund subtracts len("+core.Render(d)+"), expected len(f.Data()) of the frame being processed")
-				return
-			}
-		}
-	})
+	}
 	c.Min("pad-definition", 2)
 }
 
+// h2aFactSig renders the branches taken on a path (for messages only).
+func h2aFactSig(p *h2aIPath) string {
+	var parts []string
+	seen := map[string]bool{}
+	for _, f := range p.facts {
+		cv, pol := p.boolFact(f)
+		s := core.Render(cv.v)
+		if !pol {
+			s = "!" + s
+		}
+		if !seen[s] {
+			seen[s] = true
+			parts = append(parts, s)
+		}
+	}
+	return strings.Join(parts, " & ")
+}
+
+// c33NoteBodyRead: on every returning path of noteBodyRead (private helpers
+// spliced in) the connection level is refunded with the n that was read; the
+// stream level is refunded with the same n, and a path may skip that refund only
+// when it has established st.state == HalfClosedRemote, st.state == Closed or
+// st == nil - whatever the spelling of the test (negated, De Morgan, a named
+// boolean, an early return).
 func c33NoteBodyRead(c *core.Ctx, fl *h2aFlows) {
 	fn := h2aFn(c, "serverConn.noteBodyRead")
 	stateFld := h2aField(c, "stream.state")
@@ -520,50 +641,78 @@ func c33NoteBodyRead(c *core.Ctx, fl *h2aFlows) {
 	if fn == nil || stateFld == nil || !ok1 || !ok2 || len(fn.Params) != 3 {
 		return
 	}
-	st, n := fn.Params[1], fn.Params[2]
-	var connCall, stCall ssa.Instruction
-	core.Instrs(fn, func(in ssa.Instruction) {
-		r, ok := h2aRefundOf(in)
-		if !ok {
-			return
+	const stIdx, nIdx = 1, 2
+	paths, complete := h2aPathsOf(c, fn, 5000)
+	okConn, connWhy := len(paths) > 0 && complete, ""
+	var otherPos, skipPos token.Pos
+	other, skipBad := "", ""
+	nStream, nReturn := 0, 0
+	for _, p := range paths {
+		if !p.Returned() {
+			continue
 		}
-		switch {
-		case r.conn && core.StripConv(r.amount) == ssa.Value(n):
-			connCall = in
-		case !r.conn && r.st == ssa.Value(st) && core.StripConv(r.amount) == ssa.Value(n):
-			stCall = in
-		default:
-			c.Check("body-read-refund", "noteBodyRead:other", in.Pos(), false, "noteBodyRead refunds "+core.Render(r.amount)+" to "+core.Render(r.st)+"; expected exactly n octets for the stream that was read")
+		nReturn++
+		conn, stream := 0, 0
+		for _, e := range p.evs {
+			r, ok := h2aRefundOf(e.in)
+			if !ok {
+				continue
+			}
+			amountIsN := p.isRootParam(h2aCV{r.amount, e.fr}, nIdx)
+			switch {
+			case p.isNil(h2aCV{r.st, e.fr}) && amountIsN:
+				conn++
+			case p.isRootParam(h2aCV{r.st, e.fr}, stIdx) && amountIsN:
+				stream++
+			default:
+				if other == "" {
+					other, otherPos = "noteBodyRead refunds "+core.Render(p.strip(h2aCV{r.amount, e.fr}).v)+" to "+core.Render(p.strip(h2aCV{r.st, e.fr}).v)+"; expected exactly n octets for the stream that was read", e.in.Pos()
+				}
+			}
 		}
-	})
-	okConn := connCall != nil && core.MustPass(fn, nil, func(x ssa.Instruction) bool { return x == connCall }) == nil
-	c.Check("body-read-refund", "noteBodyRead:conn-level", fn.Pos(), okConn, "noteBodyRead must call sendWindowUpdate(nil, n) on every path: octets read by the handler were debited from the connection window whatever the stream's state is now")
-	if stCall == nil {
+		if conn != 1 && okConn {
+			okConn, connWhy = false, fmt.Sprintf(" (a path refunds the connection level %d times: %s)", conn, h2aFactSig(p))
+		}
+		if stream > 0 {
+			nStream++
+			if stream > 1 && skipBad == "" {
+				skipBad, skipPos = "a path refunds the stream level more than once: "+h2aFactSig(p), fn.Pos()
+			}
+			continue
+		}
+		// the stream-level refund is skipped: why?
+		excused := false
+		for _, cm := range p.cmps(-1) {
+			if cm.op != token.EQL {
+				continue
+			}
+			for _, xy := range [][2]h2aCV{{cm.x, cm.y}, {cm.y, cm.x}} {
+				if p.isRootParam(xy[0], stIdx) && p.isNil(xy[1]) {
+					excused = true
+				}
+				if base, isState := p.fieldLoad(xy[0], stateFld); isState && p.isRootParam(base, stIdx) {
+					if k, isK := p.intOf(xy[1]); isK && (k == hcr || k == closed) {
+						excused = true
+					}
+				}
+			}
+		}
+		if !excused && skipBad == "" {
+			skipBad, skipPos = "the stream-level refund in noteBodyRead is skipped on a path that has not established state == HalfClosedRemote / state == Closed ("+h2aFactSig(p)+"): an open stream's window would not be re-opened and the client stalls", fn.Pos()
+		}
+	}
+	if other != "" {
+		c.Check("body-read-refund", "noteBodyRead:other", otherPos, false, other)
+	}
+	c.Check("body-read-refund", "noteBodyRead:conn-level", fn.Pos(), okConn && nReturn > 0, "noteBodyRead must call sendWindowUpdate(nil, n) exactly once on every path: octets read by the handler were debited from the connection window whatever the stream's state is now"+connWhy)
+	if nStream == 0 {
 		c.Check("body-read-refund", "noteBodyRead:stream-level", fn.Pos(), false, "noteBodyRead has no sendWindowUpdate(st, n) with the n that was read")
 		return
 	}
-	bad := ""
-	nState := 0
-	for _, g := range core.GuardsAt(stCall.Block()) {
-		b, isBin := g.Cond.(*ssa.BinOp)
-		if !isBin || (b.Op != token.NEQ && b.Op != token.EQL) {
-			bad = g.Str
-			continue
-		}
-		excl := (b.Op == token.NEQ) == g.Pol // "x != K" holds
-		if h2aIsNil(b.Y) && b.X == ssa.Value(st) && excl {
-			continue // st != nil
-		}
-		base, isState := h2aFieldLoad(b.X, stateFld)
-		k, isK := h2aInt(b.Y)
-		if isState && base == ssa.Value(st) && isK && excl && (k == hcr || k == closed) {
-			nState++
-			continue
-		}
-		bad = g.Str
+	if skipPos == token.NoPos {
+		skipPos = fn.Pos()
 	}
-	c.Check("body-read-refund", "noteBodyRead:stream-level", stCall.Pos(), bad == "",
-		"the stream-level refund in noteBodyRead is skipped under a condition other than state == HalfClosedRemote / state == Closed ("+bad+"): an open stream's window would not be re-opened and the client stalls")
+	c.Check("body-read-refund", "noteBodyRead:stream-level", skipPos, skipBad == "", skipBad)
 }
 
 func c33SendWindowUpdate(c *core.Ctx) {
@@ -659,6 +808,9 @@ func c33SendWindowUpdate(c *core.Ctx) {
 	c.Min("update-split", 5)
 }
 
+// c33SendWindowUpdate32, over the returning paths of the function with its
+// private helpers spliced in: what is announced in the WINDOW_UPDATE frame and
+// what is credited to the local window agree in amount and level.
 func c33SendWindowUpdate32(c *core.Ctx, fl *h2aFlows) {
 	fn := h2aFn(c, "serverConn.sendWindowUpdate32")
 	wuN := h2aField(c, "writeWindowUpdate.n")
@@ -668,136 +820,214 @@ func c33SendWindowUpdate32(c *core.Ctx, fl *h2aFlows) {
 	if fn == nil || wuN == nil || wuID == nil || idFld == nil || fwStream == nil || len(fn.Params) != 3 {
 		return
 	}
-	st, n := fn.Params[1], fn.Params[2]
-	stIsNil := func(gs []core.Guard) (isNil, known bool) {
-		for _, g := range gs {
-			b, ok := g.Cond.(*ssa.BinOp)
-			if !ok || b.X != ssa.Value(st) || !h2aIsNil(b.Y) {
-				continue
-			}
-			switch b.Op {
-			case token.EQL:
-				return g.Pol, true
-			case token.NEQ:
-				return !g.Pol, true
-			}
-		}
-		return false, false
+	const stIdx, nIdx = 1, 2
+	type agg struct {
+		ok     bool
+		n      int
+		detail string
+		pos    token.Pos
 	}
-	ord := h2aOrd{}
-	nAnn, nCred := 0, 0
-	core.Instrs(fn, func(in ssa.Instruction) {
-		switch x := in.(type) {
-		case *ssa.Store:
-			if _, ok := h2aFieldAddrOf(x.Addr, wuN); ok {
-				nAnn++
-				c.Check("announce-account", ord.key("sendWindowUpdate32:announce-amount"), x.Pos(), core.StripConv(x.Val) == ssa.Value(n),
-					"the WINDOW_UPDATE frame announces "+core.Render(x.Val)+", not the n that is credited to the local window")
-			}
-			if _, ok := h2aFieldAddrOf(x.Addr, fwStream); ok {
-				c.Check("announce-account", ord.key("sendWindowUpdate32:announce-queue"), x.Pos(), x.Val == ssa.Value(st), "the WINDOW_UPDATE write is queued for "+core.Render(x.Val)+" instead of the stream being updated")
-			}
-			if _, ok := h2aFieldAddrOf(x.Addr, wuID); ok {
-				// streamID: st.id where st != nil, 0 where st == nil
-				okID := true
-				var visit func(v ssa.Value, gs []core.Guard)
-				visit = func(v ssa.Value, gs []core.Guard) {
-					if phi, isPhi := v.(*ssa.Phi); isPhi {
-						for i, e := range phi.Edges {
-							visit(e, core.GuardsOnEdge(phi.Block().Preds[i], phi.Block()))
-						}
-						return
-					}
-					isNil, known := stIsNil(gs)
-					if k, isK := h2aInt(v); isK {
-						if k != 0 || !known || !isNil {
-							okID = false
-						}
-						return
-					}
-					base, isID := h2aFieldLoad(v, idFld)
-					if !isID || base != ssa.Value(st) || !known || isNil {
-						okID = false
-					}
-				}
-				visit(x.Val, core.GuardsAt(x.Block()))
-				c.Check("announce-account", ord.key("sendWindowUpdate32:announce-stream"), x.Pos(), okID, "the WINDOW_UPDATE frame's stream id is "+core.Render(x.Val)+"; required: 0 exactly when st == nil, st.id otherwise")
-			}
-		case ssa.CallInstruction:
-			cc := h2aCallOf(in, "flow.add")
-			if cc == nil || len(cc.Args) != 2 {
-				return
-			}
-			kind, base := fl.kind(cc.Args[0])
-			isNil, known := stIsNil(core.GuardsAt(in.Block()))
-			okLvl := false
-			switch kind {
-			case "conn-in":
-				okLvl = known && isNil
-			case "stream-in":
-				okLvl = known && !isNil && base == ssa.Value(st)
-			}
-			nCred++
-			c.Check("announce-account", ord.key("sendWindowUpdate32:credit-"+kind), in.Pos(), okLvl && cc.Args[1] == ssa.Value(n),
-				"sendWindowUpdate32 credits "+core.Render(cc.Args[1])+" to the "+kind+" window "+core.Render(cc.Args[0])+"; required: exactly n, to serverConn.inflow when st == nil and to st.inflow otherwise (the level the WINDOW_UPDATE frame names)")
+	res := map[string]*agg{}
+	note := func(key string, pos token.Pos, ok bool, detail string) {
+		a := res[key]
+		if a == nil {
+			a = &agg{ok: true, pos: pos}
+			res[key] = a
 		}
-	})
-	c.Check("announce-account", "sendWindowUpdate32:sites", fn.Pos(), nAnn >= 1 && nCred >= 2, fmt.Sprintf("expected the increment of the frame to be set and both levels to be credited (found %d and %d sites)", nAnn, nCred))
-	// every path: announce <=> credit; neither only for n == 0
-	npaths, bad := 0, ""
+		a.n++
+		if !ok && a.ok {
+			a.ok, a.detail, a.pos = false, detail, pos
+		}
+	}
 	isAnnounce := h2aIsCall("serverConn.writeFrame")
-	isCredit := h2aIsCall("flow.add")
-	complete := core.EnumPaths(fn, 1, 5000, func(p *core.Path) {
-		npaths++
-		if _, isRet := p.Last().(*ssa.Return); !isRet {
-			return
+	paths, complete := h2aPathsOf(c, fn, 5000)
+	bad := ""
+	nAnn, nCred := 0, 0
+	for _, p := range paths {
+		// st == nil established before event i?
+		stIsNil := func(i int) (isNil, known bool) {
+			for _, cm := range p.cmps(i) {
+				if cm.op != token.EQL && cm.op != token.NEQ {
+					continue
+				}
+				if (p.isRootParam(cm.x, stIdx) && p.isNil(cm.y)) || (p.isRootParam(cm.y, stIdx) && p.isNil(cm.x)) {
+					return cm.op == token.EQL, true
+				}
+			}
+			return false, false
 		}
-		a, cr := p.Has(isAnnounce), p.Has(isCredit)
+		a, cr := false, false
+		for i, e := range p.evs {
+			switch x := e.in.(type) {
+			case *ssa.Store:
+				addr, val := h2aCV{x.Addr, e.fr}, h2aCV{x.Val, e.fr}
+				if _, ok := p.fieldAddr(addr, wuN); ok {
+					nAnn++
+					note("sendWindowUpdate32:announce-amount", x.Pos(), p.isRootParam(val, nIdx), "the WINDOW_UPDATE frame announces "+core.Render(p.strip(val).v)+", not the n that is credited to the local window")
+				}
+				if _, ok := p.fieldAddr(addr, fwStream); ok {
+					note("sendWindowUpdate32:announce-queue", x.Pos(), p.isRootParam(val, stIdx), "the WINDOW_UPDATE write is queued for "+core.Render(p.strip(val).v)+" instead of the stream being updated")
+				}
+				if _, ok := p.fieldAddr(addr, wuID); ok {
+					// streamID: st.id where st != nil, 0 where st == nil; the value is the one
+					// selected on this path, the nil test any branch taken before the frame is built
+					isNil, known := stIsNil(i)
+					okID := false
+					if k, isK := p.intOf(val); isK {
+						okID = k == 0 && known && isNil
+					} else if base, isID := p.fieldLoad(val, idFld); isID {
+						okID = p.isRootParam(base, stIdx) && known && !isNil
+					}
+					note("sendWindowUpdate32:announce-stream", x.Pos(), okID, "the WINDOW_UPDATE frame's stream id is "+core.Render(p.strip(val).v)+"; required: 0 exactly when st == nil, st.id otherwise")
+				}
+			case ssa.CallInstruction:
+				if isAnnounce(e.in) {
+					a = true
+				}
+				cc := h2aCallOf(e.in, "flow.add")
+				if cc == nil || len(cc.Args) != 2 {
+					continue
+				}
+				cr = true
+				recv := p.strip(h2aCV{cc.Args[0], e.fr})
+				kind, base := fl.kind(recv.v)
+				isNil, known := stIsNil(i)
+				okLvl := false
+				switch kind {
+				case "conn-in":
+					okLvl = known && isNil
+				case "stream-in":
+					okLvl = known && !isNil && p.isRootParam(h2aCV{base, recv.fr}, stIdx)
+				}
+				nCred++
+				note("sendWindowUpdate32:credit-"+kind, e.in.Pos(), okLvl && p.isRootParam(h2aCV{cc.Args[1], e.fr}, nIdx),
+					"sendWindowUpdate32 credits "+core.Render(p.strip(h2aCV{cc.Args[1], e.fr}).v)+" to the "+kind+" window "+core.Render(recv.v)+"; required: exactly n, to serverConn.inflow when st == nil and to st.inflow otherwise (the level the WINDOW_UPDATE frame names)")
+			}
+		}
+		if !p.Returned() {
+			continue
+		}
+		// every returning path: announce <=> credit; neither only for n == 0
 		zero := false
-		p.Edges(func(cond ssa.Value, taken bool) {
-			if v, sense, ok := h2aPosTest(cond); ok && core.StripConv(v) == ssa.Value(n) && taken != sense {
-				if b := cond.(*ssa.BinOp); b.Op == token.EQL || b.Op == token.NEQ {
+		for _, cm := range p.cmps(-1) {
+			if cm.op == token.EQL {
+				if kx, okx := p.intOf(cm.y); okx && kx == 0 && p.isRootParam(cm.x, nIdx) {
+					zero = true
+				}
+				if ky, oky := p.intOf(cm.x); oky && ky == 0 && p.isRootParam(cm.y, nIdx) {
 					zero = true
 				}
 			}
-		})
+		}
 		if a != cr || (!a && !zero) {
 			if bad == "" {
-				bad = fmt.Sprintf("announce=%v credit=%v n==0 established=%v on path: %s", a, cr, zero, h2aPathSig(p))
+				bad = fmt.Sprintf("announce=%v credit=%v n==0 established=%v on path: %s", a, cr, zero, h2aFactSig(p))
 			}
 		}
-	})
-	c.Check("announce-account", "sendWindowUpdate32:announce-iff-credit", fn.Pos(), complete && npaths > 0 && bad == "",
+	}
+	var keys []string
+	for k := range res {
+		keys = append(keys, k)
+	}
+	sort.Strings(keys)
+	for _, k := range keys {
+		c.Check("announce-account", k, res[k].pos, res[k].ok, res[k].detail)
+	}
+	okSites := res["sendWindowUpdate32:announce-amount"] != nil && res["sendWindowUpdate32:credit-conn-in"] != nil && res["sendWindowUpdate32:credit-stream-in"] != nil
+	c.Check("announce-account", "sendWindowUpdate32:sites", fn.Pos(), okSites, fmt.Sprintf("expected the increment of the frame to be set and both levels to be credited (found %d and %d sites on the enumerated paths)", nAnn, nCred))
+	c.Check("announce-account", "sendWindowUpdate32:announce-iff-credit", fn.Pos(), complete && len(paths) > 0 && bad == "",
 		"a returning path of sendWindowUpdate32 announces without crediting, credits without announcing, or does neither although n != 0: "+bad)
 	c.Min("announce-account", 7)
 }
 
-// every stream-level refund in the package is dominated by a connection-level
-// refund of the same amount.
+// every stream-level refund in the package is preceded, on every path of the
+// reviewed function it belongs to, by a connection-level refund of the same amount.
 func c33StreamNeedsConn(c *core.Ctx) {
-	ord := h2aOrd{}
+	// reviewed functions (with their private helpers) that refund at stream level
+	roots := map[*ssa.Function]bool{}
+	var order []*ssa.Function
 	for _, fn := range c.P.SrcFuncs(h2aPkg) {
-		var all []h2aRefund
+		has := false
 		core.Instrs(fn, func(in ssa.Instruction) {
-			if r, ok := h2aRefundOf(in); ok {
-				all = append(all, r)
+			if r, ok := h2aRefundOf(in); ok && !h2aIsNil(r.st) {
+				has = true
 			}
 		})
-		name := h2aShort(fn)
-		if name == "serverConn.sendWindowUpdate" {
-			continue // forwards one level, judged by update-split
+		if !has || h2aShort(fn) == "serverConn.sendWindowUpdate" {
+			continue // sendWindowUpdate forwards one level, judged by update-split
 		}
-		for _, r := range all {
-			if r.conn {
-				continue
-			}
-			ok := false
-			for _, q := range all {
-				if q.conn && h2aSame(q.amount, r.amount) && core.Dominates(q.call.(ssa.Instruction), r.call.(ssa.Instruction)) {
-					ok = true
+		tops := []*ssa.Function{fn}
+		if owners, ok := h2aOwners(c, fn); ok {
+			tops = nil
+			for _, o := range owners {
+				if f := c.P.Func(h2aPkg, o); f != nil && f.Blocks != nil {
+					tops = append(tops, f)
 				}
 			}
-			c.Check("stream-needs-conn", ord.key(name), r.call.Pos(), ok, "a stream-level window refund of "+core.Render(r.amount)+" in "+name+" is not preceded on every path by a connection-level refund of the same amount: every octet debited from a stream window was also debited from the connection window")
+		}
+		for _, t := range tops {
+			if h2aShort(t) != "serverConn.sendWindowUpdate" && !roots[t] {
+				roots[t] = true
+				order = append(order, t)
+			}
+		}
+	}
+	ord := h2aOrd{}
+	for _, root := range order {
+		name := h2aShort(root)
+		paths, complete := h2aPathsOf(c, root, 50000)
+		type site struct {
+			in      ssa.Instruction
+			ok      bool
+			amount  string
+			reached bool
+			asConn  bool // the site passed a nil stream on some path (a helper that serves both levels)
+		}
+		sites := map[ssa.Instruction]*site{}
+		var sitesInOrder []*site
+		h2aRegionInstrs(c, root, func(g *ssa.Function, in ssa.Instruction) {
+			if r, ok := h2aRefundOf(in); ok && !h2aIsNil(r.st) {
+				s := &site{in: in, ok: true, amount: core.Render(r.amount)}
+				sites[in] = s
+				sitesInOrder = append(sitesInOrder, s)
+			}
+		})
+		for _, p := range paths {
+			var conn []h2aCV
+			for _, e := range p.evs {
+				r, ok := h2aRefundOf(e.in)
+				if !ok {
+					continue
+				}
+				amount := p.strip(h2aCV{r.amount, e.fr})
+				if p.isNil(h2aCV{r.st, e.fr}) {
+					conn = append(conn, amount)
+					if s := sites[e.in]; s != nil {
+						s.asConn = true
+					}
+					continue
+				}
+				s := sites[e.in]
+				if s == nil {
+					continue
+				}
+				s.reached = true
+				found := false
+				for _, a := range conn {
+					if p.same(a, amount) {
+						found = true
+					}
+				}
+				if !found {
+					s.ok = false
+				}
+			}
+		}
+		for _, s := range sitesInOrder {
+			if !s.reached && s.asConn {
+				continue
+			}
+			c.Check("stream-needs-conn", ord.key(name), s.in.Pos(), complete && s.reached && s.ok, "a stream-level window refund of "+s.amount+" in "+name+" is not preceded on every path by a connection-level refund of the same amount: every octet debited from a stream window was also debited from the connection window")
 		}
 	}
 	c.Min("stream-needs-conn", 2)
@@ -808,67 +1038,100 @@ func c33ReadNotify(c *core.Ctx) {
 	pipeFld := h2aField(c, "RequestBody.pipe")
 	strFld := h2aField(c, "RequestBody.stream")
 	if rd != nil && pipeFld != nil && strFld != nil && len(rd.Params) >= 1 {
-		recv := rd.Params[0]
+		// over the paths of Read with its private helpers spliced in: every octet
+		// count obtained from the body pipe is reported, unless known to be <= 0
 		isPipeRead := h2aIsCall("bfe_util/pipe.Pipe.Read")
-		var reads []*ssa.Call
-		core.Instrs(rd, func(in ssa.Instruction) {
-			if call, ok := in.(*ssa.Call); ok && isPipeRead(in) {
-				reads = append(reads, call)
+		nReads := 0
+		var readPos token.Pos
+		h2aRegionInstrs(c, rd, func(g *ssa.Function, in ssa.Instruction) {
+			if _, isCall := in.(*ssa.Call); isCall && isPipeRead(in) {
+				nReads++
+				readPos = in.Pos()
 			}
 		})
-		c.Check("read-notify", "RequestBody.Read:pipe-reads", rd.Pos(), len(reads) == 1, fmt.Sprintf("expected one pipe.Read in RequestBody.Read, found %d", len(reads)))
-		if len(reads) == 1 {
-			read := reads[0]
-			base, isPipe := h2aFieldLoad(read.Call.Args[0], pipeFld)
-			c.Check("read-notify", "RequestBody.Read:reads-own-pipe", read.Pos(), isPipe && base == ssa.Value(recv), "RequestBody.Read reads from "+core.Render(read.Call.Args[0])+", not from its own pipe")
-			isN := func(v ssa.Value) bool {
-				e, ok := core.StripConv(v).(*ssa.Extract)
-				return ok && e.Index == 0 && e.Tuple == ssa.Value(read)
-			}
-			var notify ssa.Instruction
-			core.Instrs(rd, func(in ssa.Instruction) {
-				cc := h2aCallOf(in, "serverConn.noteBodyReadFromHandler")
-				if cc == nil || len(cc.Args) != 3 {
-					return
-				}
-				sb, isStr := h2aFieldLoad(cc.Args[1], strFld)
-				okArgs := isN(cc.Args[2]) && isStr && sb == ssa.Value(recv)
-				notify = in
-				c.Check("read-notify", "RequestBody.Read:notify-args", in.Pos(), okArgs, "RequestBody.Read reports ("+core.Render(cc.Args[1])+", "+core.Render(cc.Args[2])+"); expected its own stream and the byte count returned by pipe.Read")
-			})
-			npaths, bad := 0, ""
-			complete := core.EnumPaths(rd, 1, 5000, func(p *core.Path) {
-				npaths++
-				if _, isRet := p.Last().(*ssa.Return); !isRet || !p.Has(func(x ssa.Instruction) bool { return x == ssa.Instruction(read) }) {
-					return
-				}
-				notified := notify != nil && p.Has(func(x ssa.Instruction) bool { return x == notify })
-				none := false
-				p.Edges(func(cond ssa.Value, taken bool) {
-					if v, sense, ok := h2aPosTest(cond); ok && isN(v) && taken != sense {
-						none = true
+		c.Check("read-notify", "RequestBody.Read:pipe-reads", rd.Pos(), nReads >= 1, fmt.Sprintf("expected a pipe.Read in RequestBody.Read, found %d", nReads))
+		if nReads >= 1 {
+			paths, complete := h2aPathsOf(c, rd, 5000)
+			okOwn, okArgs, nNotify, bad := true, true, 0, ""
+			ownS, argsS := "", ""
+			var notifyPos token.Pos
+			for _, p := range paths {
+				// the reads of this path, each with what follows it up to the next read
+				var readAt []int
+				for i, e := range p.evs {
+					if _, isCall := e.in.(*ssa.Call); isCall && isPipeRead(e.in) {
+						readAt = append(readAt, i)
 					}
-				})
-				if !notified && !none && bad == "" {
-					bad = h2aPathSig(p)
 				}
-			})
-			c.Check("read-notify", "RequestBody.Read:every-read-reported", read.Pos(), complete && bad == "",
+				for k, i := range readAt {
+					e := p.evs[i]
+					call := e.in.(*ssa.Call)
+					base, isPipe := p.fieldLoad(h2aCV{call.Call.Args[0], e.fr}, pipeFld)
+					if !isPipe || !p.isRootParam(base, 0) {
+						okOwn, ownS = false, core.Render(p.strip(h2aCV{call.Call.Args[0], e.fr}).v)
+					}
+					isN := func(v h2aCV) bool {
+						v = p.strip(v)
+						x, ok := v.v.(*ssa.Extract)
+						return ok && x.Index == 0 && x.Tuple == ssa.Value(call) && v.fr == e.fr
+					}
+					end := len(p.evs)
+					if k+1 < len(readAt) {
+						end = readAt[k+1]
+					}
+					notified := false
+					for j := i + 1; j < end; j++ {
+						cc := h2aCallOf(p.evs[j].in, "serverConn.noteBodyReadFromHandler")
+						if cc == nil || len(cc.Args) != 3 {
+							continue
+						}
+						nNotify++
+						notifyPos = p.evs[j].in.Pos()
+						sb, isStr := p.fieldLoad(h2aCV{cc.Args[1], p.evs[j].fr}, strFld)
+						if isN(h2aCV{cc.Args[2], p.evs[j].fr}) && isStr && p.isRootParam(sb, 0) {
+							notified = true
+						} else {
+							okArgs, argsS = false, "("+core.Render(p.strip(h2aCV{cc.Args[1], p.evs[j].fr}).v)+", "+core.Render(p.strip(h2aCV{cc.Args[2], p.evs[j].fr}).v)+")"
+						}
+					}
+					if !p.Returned() || notified {
+						continue
+					}
+					none := false
+					for _, cm := range p.cmps(-1) {
+						if v, sense, ok := p.posTest(cm); ok && !sense && isN(v) && cm.at > i {
+							none = true
+						}
+					}
+					if !none && bad == "" {
+						bad = h2aFactSig(p)
+					}
+				}
+			}
+			c.Check("read-notify", "RequestBody.Read:reads-own-pipe", readPos, okOwn, "RequestBody.Read reads from "+ownS+", not from its own pipe")
+			if nNotify > 0 {
+				c.Check("read-notify", "RequestBody.Read:notify-args", notifyPos, okArgs, "RequestBody.Read reports "+argsS+"; expected its own stream and the byte count returned by pipe.Read")
+			}
+			c.Check("read-notify", "RequestBody.Read:every-read-reported", readPos, complete && bad == "",
 				"a path returns octets from the body pipe to the handler without reporting them through noteBodyReadFromHandler and without having established n <= 0: they are never refunded; path: "+bad)
 		}
 	}
-	// noteBodyReadFromHandler forwards (st, n) unchanged on bodyReadCh
+	// noteBodyReadFromHandler forwards (st, n) unchanged on bodyReadCh (also when
+	// the message is built or sent in a private helper that receives st and n)
 	if fn := h2aFn(c, "serverConn.noteBodyReadFromHandler"); fn != nil && len(fn.Params) == 3 {
 		mSt, mN, ch := h2aField(c, "bodyReadMsg.st"), h2aField(c, "bodyReadMsg.n"), h2aField(c, "serverConn.bodyReadCh")
 		okSt, okN, okSend := false, false, false
-		core.Instrs(fn, func(in ssa.Instruction) {
+		isParam := func(v ssa.Value, i int) bool {
+			return h2aEvery(c, v, func(x ssa.Value) bool { return core.StripConv(x) == ssa.Value(fn.Params[i]) }, 3)
+		}
+		h2aRegionInstrs(c, fn, func(g *ssa.Function, in ssa.Instruction) {
 			switch x := in.(type) {
 			case *ssa.Store:
 				if _, ok := h2aFieldAddrOf(x.Addr, mSt); ok {
-					okSt = x.Val == ssa.Value(fn.Params[1])
+					okSt = isParam(x.Val, 1)
 				}
 				if _, ok := h2aFieldAddrOf(x.Addr, mN); ok {
-					okN = x.Val == ssa.Value(fn.Params[2])
+					okN = isParam(x.Val, 2)
 				}
 			case *ssa.Select:
 				for _, s := range x.States {
@@ -884,11 +1147,13 @@ func c33ReadNotify(c *core.Ctx) {
 		})
 		c.Check("read-notify", "noteBodyReadFromHandler:forwards", fn.Pos(), okSt && okN && okSend, fmt.Sprintf("noteBodyReadFromHandler must send bodyReadMsg{st, n} with its own arguments on sc.bodyReadCh (st=%v n=%v sent=%v)", okSt, okN, okSend))
 	}
-	// serve hands the received message to noteBodyRead unchanged
+	// serve hands the received message to noteBodyRead unchanged: every call of
+	// noteBodyRead (reviewed callers: serve and its new private helpers, see
+	// refund-callers) passes the st and n of one bodyReadMsg
 	if fn := h2aFn(c, "serverConn.serve"); fn != nil {
 		mSt, mN := h2aField(c, "bodyReadMsg.st"), h2aField(c, "bodyReadMsg.n")
 		n := 0
-		for _, f := range core.WithClosures(fn) {
+		for _, f := range c.P.SrcFuncs(h2aPkg) {
 			core.Instrs(f, func(in ssa.Instruction) {
 				cc := h2aCallOf(in, "serverConn.noteBodyRead")
 				if cc == nil || len(cc.Args) != 3 {
@@ -919,40 +1184,42 @@ func c33WindowInit(c *core.Ctx, fl *h2aFlows) {
 		call, ok := core.StripConv(v).(*ssa.Call)
 		return ok && core.CallIs(&call.Call, h2aPkg+".Server.initialStreamRecvWindowSize")
 	}
-	// advertised value in serve
+	// advertised value in serve (or a private helper of it that builds the SETTINGS)
 	var adv ssa.Value
 	if fn := h2aFn(c, "serverConn.serve"); fn != nil {
-		core.Instrs(fn, func(in ssa.Instruction) {
-			st, ok := in.(*ssa.Store)
-			if !ok {
-				return
-			}
-			base, ok := h2aFieldAddrOf(st.Addr, setID)
-			if k, isK := h2aInt(st.Val); !ok || !isK || k != sIW {
-				return
-			}
-			// the Val store on the same element
-			core.Instrs(fn, func(in2 ssa.Instruction) {
-				st2, ok := in2.(*ssa.Store)
+		for _, g := range h2aRegionOf(c, fn) {
+			g := g
+			core.Instrs(g, func(in ssa.Instruction) {
+				st, ok := in.(*ssa.Store)
 				if !ok {
 					return
 				}
-				if b2, ok := h2aFieldAddrOf(st2.Addr, setVal); ok && b2 == base {
-					adv = st2.Val
+				base, ok := h2aFieldAddrOf(st.Addr, setID)
+				if k, isK := h2aInt(st.Val); !ok || !isK || k != sIW {
+					return
 				}
+				// the Val store on the same element
+				core.Instrs(g, func(in2 ssa.Instruction) {
+					st2, ok := in2.(*ssa.Store)
+					if !ok {
+						return
+					}
+					if b2, ok := h2aFieldAddrOf(st2.Addr, setVal); ok && b2 == base {
+						adv = st2.Val
+					}
+				})
 			})
-		})
+		}
 		c.Check("window-init", "serve:advertised-stream-window", fn.Pos(), adv != nil && isSrc(adv), "the initial SETTINGS frame must advertise SETTINGS_INITIAL_WINDOW_SIZE = Server.initialStreamRecvWindowSize(rule); advertises "+core.Render(adv))
 	}
 	if fn := h2aFn(c, "serverConn.processHeaders"); fn != nil {
 		var isw ssa.Value
-		var owner ssa.Value
 		linked, credited := false, false
-		core.Instrs(fn, func(in ssa.Instruction) {
+		h2aRegionInstrs(c, fn, func(g *ssa.Function, in ssa.Instruction) {
 			switch x := in.(type) {
 			case *ssa.Store:
-				if b, ok := h2aFieldAddrOf(x.Addr, iswFld); ok {
-					isw, owner = x.Val, b
+				if _, ok := h2aFieldAddrOf(x.Addr, iswFld); ok {
+					isw = x.Val
 				}
 				if fb, ok := h2aFieldAddrOf(x.Addr, fl.flowConn); ok {
 					if k, _ := fl.kind(fb); k == "stream-in" {
@@ -979,25 +1246,24 @@ func c33WindowInit(c *core.Ctx, fl *h2aFlows) {
 		if !credited {
 			c.Check("window-init", "processHeaders:stream-credit", fn.Pos(), false, "processHeaders does not credit the new stream's receive window")
 		}
-		_ = owner
-		okSame := isw != nil && adv != nil && isSrc(isw) && core.Render(isw) == core.Render(adv)
+		// the same expression over the same receiver in both functions (compared by
+		// structure: field objects, callee, parameter position - not by local names)
+		okSame := isw != nil && adv != nil && isSrc(isw) && h2aSameShape(isw, adv, 0)
 		c.Check("window-init", "processHeaders:isw-source", fn.Pos(), okSame, "stream.isw is "+core.Render(isw)+" while SETTINGS advertised "+core.Render(adv)+": the accounted window differs from the advertised one")
 	}
 	if fn := h2aFn(c, "Server.ServeConn"); fn != nil {
 		found := false
-		for _, f := range core.WithClosures(fn) {
-			core.Instrs(f, func(in ssa.Instruction) {
-				cc := h2aCallOf(in, "flow.add")
-				if cc == nil || len(cc.Args) != 2 {
-					return
-				}
-				if k, _ := fl.kind(cc.Args[0]); k == "conn-in" {
-					found = true
-					v, isK := h2aInt(cc.Args[1])
-					c.Check("window-init", "ServeConn:conn-credit", in.Pos(), isK && v == defWin && defWin == 65535, "the connection receive window starts at "+core.Render(cc.Args[1])+"; RFC 7540 6.9.2 fixes the initial connection window at 65535 (larger windows must be announced by WINDOW_UPDATE)")
-				}
-			})
-		}
+		h2aRegionInstrs(c, fn, func(g *ssa.Function, in ssa.Instruction) {
+			cc := h2aCallOf(in, "flow.add")
+			if cc == nil || len(cc.Args) != 2 {
+				return
+			}
+			if k, _ := fl.kind(cc.Args[0]); k == "conn-in" {
+				found = true
+				v, isK := h2aInt(cc.Args[1])
+				c.Check("window-init", "ServeConn:conn-credit", in.Pos(), isK && v == defWin && defWin == 65535, "the connection receive window starts at "+core.Render(cc.Args[1])+"; RFC 7540 6.9.2 fixes the initial connection window at 65535 (larger windows must be announced by WINDOW_UPDATE)")
+			}
+		})
 		if !found {
 			c.Check("window-init", "ServeConn:conn-credit", fn.Pos(), false, "ServeConn does not initialise serverConn.inflow")
 		}
@@ -1006,7 +1272,7 @@ func c33WindowInit(c *core.Ctx, fl *h2aFlows) {
 	if fn := h2aFn(c, "serverConn.newWriterAndRequest"); fn != nil {
 		pipeFld := h2aField(c, "RequestBody.pipe")
 		ord := h2aOrd{}
-		core.Instrs(fn, func(in ssa.Instruction) {
+		h2aRegionInstrs(c, fn, func(g *ssa.Function, in ssa.Instruction) {
 			st, ok := in.(*ssa.Store)
 			if !ok || pipeFld == nil {
 				return
@@ -1014,35 +1280,91 @@ func c33WindowInit(c *core.Ctx, fl *h2aFlows) {
 			if _, ok := h2aFieldAddrOf(st.Addr, pipeFld); !ok {
 				return
 			}
-			call, isCall := st.Val.(*ssa.Call)
-			okP := false
-			switch {
-			case isCall && core.CallIs(&call.Call, "bfe_util/pipe.NewPipeWithSize"):
-				_, okP = h2aFieldLoad(call.Call.Args[0], iswFld)
-			case isCall && core.CallIs(&call.Call, "bfe_util/pipe.NewPipeFromBufferPool"):
-				okP = core.HasGuard(st.Block(), func(g core.Guard) bool {
-					gc, ok := g.Cond.(*ssa.Call)
-					return ok && g.Pol && core.CallIs(&gc.Call, h2aPkg+".stream.defaultStreamWindow")
-				})
+			// the pipe stored: a constructor call, or the constructor selected by the
+			// branches that merge here (`p := A; if !default { p = B }; body.pipe = p`)
+			type cand struct {
+				v  ssa.Value
+				gs []core.Guard
+			}
+			cands := []cand{{st.Val, c.P.GuardsAtCtx(st.Block())}}
+			if phi, isPhi := st.Val.(*ssa.Phi); isPhi {
+				cands = nil
+				for i, e := range phi.Edges {
+					cands = append(cands, cand{e, core.GuardsOnEdge(phi.Block().Preds[i], phi.Block())})
+				}
+			}
+			okP := len(cands) > 0
+			for _, cd := range cands {
+				call, isCall := cd.v.(*ssa.Call)
+				okC := false
+				switch {
+				case isCall && core.CallIs(&call.Call, "bfe_util/pipe.NewPipeWithSize"):
+					_, okC = h2aFieldLoad(call.Call.Args[0], iswFld)
+				case isCall && core.CallIs(&call.Call, "bfe_util/pipe.NewPipeFromBufferPool"):
+					gs := append(append([]core.Guard(nil), cd.gs...), c.P.GuardsAtCtx(call.Block())...)
+					for _, g := range gs {
+						gc, ok := g.Cond.(*ssa.Call)
+						if ok && g.Pol && core.CallIs(&gc.Call, h2aPkg+".stream.defaultStreamWindow") {
+							okC = true
+						}
+					}
+				}
+				if !okC {
+					okP = false
+				}
 			}
 			c.Check("window-init", ord.key("newWriterAndRequest:body-buffer"), st.Pos(), okP, "the request body pipe is created by "+core.Render(st.Val)+"; its capacity must be the advertised stream window (NewPipeWithSize(st.isw), or the fixed initialWindowSize pool only under defaultStreamWindow())")
 		})
 	}
+	// defaultStreamWindow reports true only for isw == 0 or isw == initialWindowSize:
+	// on every returning path the result is false, or true after one of the two
+	// equalities was established, or is itself one of the two equalities
 	if fn := h2aFn(c, "stream.defaultStreamWindow"); fn != nil && len(fn.Params) == 1 {
-		for i, r := range core.Returns(fn) {
-			if len(r.Results) != 1 || core.Render(r.Results[0]) != "true" {
+		paths, complete := h2aPathsOf(c, fn, 2000)
+		ok, seenTrue := complete && len(paths) > 0, false
+		for _, p := range paths {
+			rv := p.RootResults()
+			if !p.Returned() || len(rv) != 1 {
 				continue
 			}
-			ok := core.AllEdgesGuarded(r.Block(), func(g core.Guard) bool {
-				b, isBin := g.Cond.(*ssa.BinOp)
-				if !isBin || b.Op != token.EQL || !g.Pol {
+			isEq := func(cm h2aCmp) bool {
+				if cm.op != token.EQL {
 					return false
 				}
-				base, isIsw := h2aFieldLoad(b.X, iswFld)
-				k, isK := h2aInt(b.Y)
-				return isIsw && base == ssa.Value(fn.Params[0]) && isK && (k == 0 || k == defWin)
-			})
-			c.Check("window-init", fmt.Sprintf("defaultStreamWindow:true#%d", i), r.Pos(), ok, "defaultStreamWindow() reports the default although isw is not known to be 0 or initialWindowSize: a 65535-byte pooled buffer would back a larger advertised window")
+				for _, xy := range [][2]h2aCV{{cm.x, cm.y}, {cm.y, cm.x}} {
+					base, isIsw := p.fieldLoad(xy[0], iswFld)
+					k, isK := p.intOf(xy[1])
+					if isIsw && p.isRootParam(base, 0) && isK && (k == 0 || k == defWin) {
+						return true
+					}
+				}
+				return false
+			}
+			// the result on this path with negations folded: a constant, or a condition
+			res, pol := p.boolFact(h2aFact{cond: rv[0], taken: true})
+			if k, isK := res.v.(*ssa.Const); isK {
+				if (core.Render(k) == "true") != pol {
+					continue
+				}
+				seenTrue = true
+				est := false
+				for _, cm := range p.cmps(-1) {
+					if isEq(cm) {
+						est = true
+					}
+				}
+				if !est {
+					ok = false
+				}
+				continue
+			}
+			seenTrue = true
+			if cm, isCmp := p.cmpOf(rv[0], true, 0); !isCmp || !isEq(cm) {
+				ok = false
+			}
+		}
+		if seenTrue {
+			c.Check("window-init", "defaultStreamWindow:true#0", fn.Pos(), ok, "defaultStreamWindow() reports the default although isw is not known to be 0 or initialWindowSize: a 65535-byte pooled buffer would back a larger advertised window")
 		}
 	}
 	c.Min("window-init", 8)
